@@ -187,6 +187,7 @@ pub fn run(ctx: &Ctx) -> CheckResult {
     let tmax = 24usize;
     let mults = [2.0, 0.0, -1.0, f64::NAN, 1e300, 2.71828, 1e-5, 1e305, -0.0, f64::INFINITY];
     let big: Vec<usize> = vec![1usize << 31, 1usize << 32, (1usize << 53) + 1, usize::MAX - 1, usize::MAX];
+    let large_windows: Vec<usize> = vec![65_536, 1 << 20, 1 << 24, (1 << 24) + 1, 1 << 25];
     // constructor jobs, grouped per kind
     let outs = par_run(ctx, &ALL_KINDS, |_, &k| {
         let mut out = JobOut::default();
@@ -211,6 +212,11 @@ pub fn run(ctx: &Ctx) -> CheckResult {
                     for &p in &big {
                         check_new(&if k.has_mult() { Cfg::pm(k, p, 2.0) } else { Cfg::p1(k, p) }, &mut out);
                     }
+                } else {
+                    // "as far as memory allows": windows of up to 2^25 values (256 MiB) are well within it
+                    for &p in &large_windows {
+                        check_new(&if k.has_mult() { Cfg::pm(k, p, 2.0) } else { Cfg::p1(k, p) }, &mut out);
+                    }
                 }
             }
             2 => {
@@ -226,6 +232,9 @@ pub fn run(ctx: &Ctx) -> CheckResult {
                 // SlowStochastic: the EMA period allocates nothing
                 for &p in &big {
                     check_new(&Cfg::p2(k, 14, p), &mut out);
+                }
+                for &p in &large_windows {
+                    check_new(&Cfg::p2(k, p, 3), &mut out);
                 }
             }
             _ => {
@@ -274,6 +283,6 @@ pub fn run(ctx: &Ctx) -> CheckResult {
     }
     res.extra.insert("defaults".into(), json!(ALL_KINDS.iter().map(|k| k.default_cfg().display_text()).collect::<Vec<_>>()));
     res.rule = "case = one constructor call (every period / period tuple / multiplier listed in bounds) under catch_unwind in the overflow-checked build: Err(InvalidParameter) iff some period is 0, else Ok with period()/multiplier()/Display equal to the arguments; plus accessors re-checked after every operation of every history, and Default::default() vs new(documented defaults) output-by-output; non-trivial = constructor with a period > 1 / accessor check after >= 1 operation".into();
-    res.bounds = format!("single-period constructors: every period 0..={pmax}; multi-period: every tuple over 0..={tmax} plus every period 0..={pmax} in each position; multipliers {{2,0,-1,NaN,1e300,2.71828,1e-5,1e305,-0.0,inf}}; boundary periods 2^31, 2^32, 2^53+1, usize::MAX-1, usize::MAX for allocation-free indicators; accessors (also on a clone and on a bincode-restored copy) after every op of every history in seq(values+special+reset, {}); Default vs new(defaults) on all 4^{} input patterns", if th { 5 } else { 4 }, if th { 5 } else { 4 });
+    res.bounds = format!("single-period constructors: every period 0..={pmax}; multi-period: every tuple over 0..={tmax} plus every period 0..={pmax} in each position; multipliers {{2,0,-1,NaN,1e300,2.71828,1e-5,1e305,-0.0,inf}}; boundary periods 2^31, 2^32, 2^53+1, usize::MAX-1, usize::MAX for allocation-free indicators and 2^16, 2^20, 2^24, 2^24+1, 2^25 for windowed ones; accessors (also on a clone and on a bincode-restored copy) after every op of every history in seq(values+special+reset, {}); Default vs new(defaults) on all 4^{} input patterns", if th { 5 } else { 4 }, if th { 5 } else { 4 });
     res
 }
